@@ -819,11 +819,11 @@ pub fn generate(prop: &str, tier: &str, seed: u64, out: &mut impl Write) {
                 let b = bits(r, n); let need = (n + 7) / 8;
                 for t in [need - 1, need, need + 3] { emit(&b, t, &fill_tok(r), out); }
             }
-            // beyond 65535 coils (the model's packing loop is quadratic on lists: few cases in the quick tier)
-            let huge: Vec<usize> = if tier == "thorough" { vec![65535, 65536, 65537, 70000] } else { vec![65536] };
+            // beyond 65535 coils
+            let huge: Vec<usize> = if tier == "thorough" { vec![65535, 65536, 65537, 70000, 131071, 131072, 262145] } else { vec![65535, 65536, 65537, 70000] };
             for n in huge {
                 let b = bits(r, n); let need = (n + 7) / 8;
-                let ts: Vec<usize> = if tier == "thorough" { vec![need - 1, need, need + 3] } else { vec![need] };
+                let ts: Vec<usize> = vec![need - 1, need, need + 3];
                 for t in ts { emit(&b, t, &fill_tok(r), out); }
             }
             for _ in 0..scale(tier, 300, 6000) { let n = coil_count(r); let b = bits(r, n); let t = target_len(r, (n + 7) / 8); emit(&b, t, &fill_tok(r), out); }
@@ -882,7 +882,7 @@ pub fn generate(prop: &str, tier: &str, seed: u64, out: &mut impl Write) {
                 w!("reqenc RWM 1 2 3 {s} {} 00 {l} 00", 2 * n); w!("#@ C19 req RWM 1 2 3 {s} {} 00", 2 * n);
                 for k in ["RHR", "RIR", "RWM"] { w!("rspenc {k} {s} {} 00 {l} 00", 2 * n); w!("#@ C19 rsp {k} {s} {} 00", 2 * n); }
             }
-            let csizes: Vec<usize> = (1960..=1976usize).chain(2030..=2060).chain([2100, 4000, 4088, 4096, 4097]).chain(if tier == "thorough" { (1977..=2100).chain([65535, 65537]).collect::<Vec<_>>() } else { vec![] }).chain([65536, 70000]).collect();
+            let csizes: Vec<usize> = (1960..=1976usize).chain(2030..=2060).chain([2100, 4000, 4088, 4096, 4097]).chain(if tier == "thorough" { (1977..=2100).collect::<Vec<_>>() } else { vec![] }).chain([65535, 65536, 65537, 70000]).collect();
             for n in csizes {
                 let b = bits(r, n); let s = bits_str(&b); let need = (n + 7) / 8;
                 let l = need + 16;
